@@ -1281,7 +1281,19 @@ def check_wrappers(ctx, rule, table):
         for b in bodies:
             R = Resolver(b)
             got = sorted(set(fmt(s_(e)) for _, e in R.return_expr()))
-            clo = sorted(fmt(s_(e)) for cb in b.closure_bodies() for _, e in Resolver(cb).return_expr())
+            def positional(cb, e):
+                # closure parameters by position ($1, $2, ..): their names are free
+                names = cb.arg_names()
+                ren = {n: '$%d' % i for i, n in enumerate(names) if i >= 1}
+
+                def go(x):
+                    if isinstance(x, tuple) and len(x) == 2 and x[0] == 'param' and x[1] in ren:
+                        return ('param', ren[x[1]])
+                    if isinstance(x, tuple):
+                        return tuple(go(y) for y in x)
+                    return x
+                return go(e)
+            clo = sorted(fmt(positional(cb, s_(e))) for cb in b.closure_bodies() for _, e in Resolver(cb).return_expr())
             wants = [want] if isinstance(want, str) else list(want)
             site = q + '#wrapper'
             if any('…' in g for g in got + clo):
